@@ -83,7 +83,30 @@ def run_script(ops_or_len, rng, profile, drv, res, pid, record=None, check_every
     last = None
     for k in range(n):
         op = (irgen.followup(rng, cur, last) or irgen.gen_op(rng, cur, profile, compound=True)) if gen else ops_or_len[k]
+        if gen and k == n - 1 and k >= 4 and rng.random() < 0.3:
+            kinds = [kd for kd in ("netlist", "library", "definition", "instance", "port", "cable", "wire", "pin") if world.objs[kd]]
+            if kinds:
+                kd = rng.choice(kinds)
+                op = {"t": "heapClone", "kind": kd, "x": rng.choice(sorted(world.objs[kd]))}
         script.append(op)
+        if op["t"] == "heapClone":
+            # last step of a history: clone() of any element of whatever heap the calls produced. A clone the library
+            # refuses (assertion) is fine; one it returns must leave originals + copy consistent (C01/C02 oracle)
+            from engines import irclone
+            x = world.objs[op["kind"]].get(op["x"])
+            if x is not None:
+                try:
+                    c = x.clone()
+                except Exception:
+                    c = None
+                if c is not None:
+                    world.keep.append(c)
+                    irclone.label_elem_clone(world, op["kind"], x, c, max(world.counts().values()) + 1)
+                    for clause, detail in oracle(world):
+                        prop = "C02" if clause.startswith(C02_CLAUSES) else "C01"
+                        findings.append({"kind": "spec", "prop": prop, "signature": "heapClone.%s" % clause, "step": k, "detail": detail})
+                    res.dist("op:heapClone:" + op["kind"])
+            break
         observe(world)
         tok = prepare(world, op)
         before = snapshot(world)
